@@ -14,18 +14,18 @@ NA = {
  "C20": "tombstone_value_states and everything it could affect is async storage code; the verifier-side tombstone clauses are decided under C07",
 }
 TEXT = {
- "C13": ("Bounded model checking (Kani/CBMC over the compiled akd crate) of the single node-selection function every reader uses: for ALL stored records and ALL target epochs the selected node is never newer than the target (or NotFound). This is the kernel whose defect (F-C13, fixed) let a lagging instance return a root hash labelled with the wrong epoch. Only this kernel is claimed; schedules are outside what a solver can reach here.",
-         "Kani 0.68 / CBMC 6.11 (cadical); alloc::fmt::format stubbed; async callers (get_epoch_hash, proof generation, poller) not covered"),
+ "C13": ("Two solver-decided facts about the real code. (1) Bounded model checking (Kani/CBMC over the compiled akd crate) of the single node-selection function every reader uses: for ALL stored records and ALL target epochs the selected node is never newer than the target (or NotFound) - the kernel whose defect (F-C13, fixed) let a lagging instance return a root hash labelled with the wrong epoch. (2) Data-abstracted model checking of the request coroutines: the control-flow graphs of all async bodies reachable from get_epoch_hash / lookup / batch_lookup / key_history / audit are extracted from the rustc MIR of /repo and z3's fixedpoint engine decides that no path reads the epoch record twice (the defect F-C13b, fixed, was such a path: a history answer stitched from two epochs). Interleavings themselves are outside the claim.",
+         'Kani 0.68 / CBMC 6.11 (cadical); z3 fixedpoint (Datalog) over MIR CFGs, every branch nondeterministic (over-approximation; counterexamples confirmed by the native schedule search native_stitch); poller, cache flush timing and concurrent publishes as such not covered'),
  "C11": ("Bounded model checking of the two kernels that make a partially written commit invisible: the real reader selection composed with a restatement of the writer's record shift (all records, all contents), and the commit ordering priority (epoch record last).",
          "Kani/CBMC; write side is a five-line restatement of TreeNode::write_to_storage; crash-point enumeration over a real publish is outside the claim"),
- "C15": ("Bounded model checking of the transaction read kernels (find_appropriate_item, compare_db_and_transaction_records) composed exactly as StorageManager::get_user_state composes them, against the specification 'committed states overridden by pending states of the same epoch', for all well-formed data within the stated sizes and all five retrieval flags.",
-         "Kani/CBMC; database pick modelled by the specification's pick; async manager functions (get_user_data, get_user_state_versions, batch_get, begin/commit/rollback) not covered"),
+ "C15": ("Bounded model checking of the transaction read kernels (find_appropriate_item, compare_db_and_transaction_records) composed exactly as StorageManager::get_user_state composes them, against the specification 'committed states overridden by pending states of the same epoch', for all well-formed data within the stated sizes and all five retrieval flags; plus symbolic execution of the MIR of Transaction::{begin,commit,rollback}_transaction over an abstract state (symbolic open flag, arbitrary pending multiset): begin refused while open, refused commit/rollback change nothing, commit returns every pending record once sorted by transaction priority and empties/closes the log, rollback empties/closes it.",
+         "Kani/CBMC; database pick modelled by the specification's pick; MIR walker with container/iterator models (vk/mirsmt/txn.py), counterexamples confirmed by native_txn on the real Transaction type; async manager functions (get_user_data, get_user_state_versions, batch_get) not covered"),
  "C17": ("Bounded model checking of NodeLabel operations against an independent bit-string oracle: loop-free operations for ALL 32-byte values and ALL lengths 0..=256; is_prefix_of and get_longest_common_prefix for all bit patterns up to the stated symbolic length bound, both shipped configurations.",
          "Kani/CBMC; alloc::fmt::format stubbed (constant message); symbolic-length loops beyond the stated widths are outside the claim"),
  "C06": ("Bounded model checking of the real lookup_verify (and the base.rs helpers it calls) with EVERY field of the LookupProof symbolic, against an honest directory state with symbolic values, nonces and epochs: an accepted proof reports exactly the latest update; the honest proof verifies. Tree-level verification is replaced by the membership oracle justified by C05 (natively, for replay, real proofs and the real tree verifiers are used).",
          "Kani/CBMC; ideal hash, ideal VRF (cfg hook), membership oracle stubs; <= 3 versions, epochs <= 7, 0-2 byte values/nonces; Kani pointer checks off and allocator-model artefacts ignored (DESIGN 3.1)"),
- "C07": ("Bounded model checking of the history verifier in three layers, each over the real code: (shape) verify_with_history_params with arbitrary symbolic versions, epochs and parameters; (helpers) each base.rs verification helper against its specification over the honest tree; (update) verify_single_update_proof with every field symbolic - value/epoch/version truth, tombstone opt-in, previous-version stale marker stamped with the same epoch, trees with a missing or late stale marker. One known finding (F-C07) is reported, keyed by its assertion. The loop of key_history_verify that strings these together is outside the claim.",
-         "Kani/CBMC; ideal hash, ideal VRF, membership oracle; get_marker_versions replaced by a table regenerated from the real function each run; <= 4 update proofs (shape), <= 3 honest versions, epochs <= 7"),
+ "C07": ('Model checking of the history verifier in four layers, each over the real code: (shape) verify_with_history_params with arbitrary symbolic versions, epochs and parameters; (helpers) each base.rs verification helper against its specification over the honest tree; (update) verify_single_update_proof with every field symbolic - value/epoch/version truth, tombstone opt-in, previous-version stale marker present and stamped with the same epoch; (glue) the body of key_history_verify executed symbolically on its MIR with the three ingredients as opaque events: it returns Ok only if every update proof, every past and every future marker was verified with its own version / VRF proof / tree proof and succeeded, epochs are non-increasing, and the results are the per-update results in order. One known finding (F-C07).',
+         'Kani/CBMC for the first three layers (ideal hash, ideal VRF, membership oracle; get_marker_versions replaced by a table regenerated from the real function each run; <= 4 update proofs (shape), <= 3 honest versions, epochs <= 7); own MIR path walker + z3 for the glue (k <= 3/4 update proofs, <= 2/3 markers of each kind), counterexamples confirmed by the native battery native_hist (real server and verifier); the composition of glue and ingredient layers is an argument, not a query'),
  "C08": ("Bounded symbolic execution of the rustc MIR of get_marker_versions (and helpers) into bit-vector SMT, regenerated from /repo on every run: the marker arithmetic that makes lookup and history proofs contradict each other is decided for ALL version/epoch triples below the stated width, on the real code's outputs, with unwinding assertions as queries; the one combination that does not conflict (single-marker lookup vs. complete history, F-C08) is reported as a known finding keyed by a closed-form predicate, any other hole is a violation.",
          "own MIR->SMT encoder (vk/mirsmt) with ~17 std models, validated against native execution every run; z3 5.1 (bit-blast+SAT) decides, z3 4.8.12 / cvc5 cross-check; what accepted proofs commit the server to is read off the verifiers (C06/C07) and tree-level exclusivity is C05"),
  "C19": ("Bounded model checking of the real From/TryFrom conversions between the proof types and the generated protobuf message structs: round trips are the identity for every symbolic value within the stated sizes, and messages with arbitrary content (missing fields, over-long labels, wrong-size digests, any direction word, wrong child counts) never panic the decoder and are rejected exactly in the documented cases.",
@@ -44,10 +44,11 @@ for pid in sorted(registry.PROPERTIES):
         "thorough_cmd": "./check %s thorough" % pid,
         "evidence_file": "/verif/evidence/%s.json" % pid,
         "replay_cmd_template": "./check --replay {path}",
-        "engine": "kani" if pid != "C08" else "mir-smt",
+        "engine": {"C08": "mir-smt", "C07": "kani + mir-smt", "C11": "kani + mir-smt", "C13": "kani + mir-smt", "C15": "kani + mir-smt"}.get(pid, "kani"),
         "level_claimed": {"category": "model_checking", "text": t, "design_ref": "DESIGN.md section 4 (%s)" % pid},
         "level_note": note,
-        "technique": "bounded model checking of the compiled Rust code with Kani (CBMC + SAT), symbolic inputs via kani::any(), unwinding assertions on, reachability witnesses via kani::cover" if pid != "C08" else "bounded symbolic execution of rustc MIR into SMT (z3, cross-checked with cvc5)",
+        "technique": ("bounded model checking of the compiled Rust code with Kani (CBMC + SAT), symbolic inputs via kani::any(), unwinding assertions on, reachability witnesses via kani::cover" if pid != "C08" else "bounded symbolic execution of rustc MIR into SMT (z3, cross-checked with cvc5)")
+                     + ("; plus symbolic execution of the rustc MIR of the function bodies Kani cannot reach (own walker, z3), counterexamples confirmed by native batteries against the real code" if pid in ("C07", "C11", "C13", "C15") else ""),
     })
 m = {
  "version": 1,
